@@ -288,7 +288,7 @@ fn bits_of(ty: &str) -> u32 {
 // generator
 
 const NS: [u64; 6] = [1, 2, 3, 4, 7, 32];
-const TS: [u64; 4] = [1, 3, 1_000, 2_500_000];
+const TS: [u64; 7] = [1, 3, 1_000, 1_500, 2_500, 1_000_001, 2_500_000];
 
 fn delta(r: &mut Rng, n: u64, t: u64) -> i128 {
     let year = n as i128 * t as i128;
@@ -439,6 +439,14 @@ fn gen_cq(r: &mut Rng, out: &mut String, id: usize, thorough: bool) {
                 writeln!(out, "cancel {}", vals[k as usize]).unwrap();
             }
         } else {
+            // sometimes peek first, and sometimes cancel a recent event between the peek and the fetch
+            if r.chance(1, 4) {
+                writeln!(out, "peek").unwrap();
+                if adds > 0 && r.chance(1, 2) {
+                    let k = adds - 1 - r.below(adds.min(3));
+                    writeln!(out, "cancel {}", vals[k as usize]).unwrap();
+                }
+            }
             writeln!(out, "fetch").unwrap();
         }
     }
@@ -724,6 +732,11 @@ fn exec_cq<T: Pay>(header: &str, body: &[String], out: &mut String) {
                     DROPS.with(|d| *d.borrow_mut() = during);
                 }
                 Err(_) => write!(res, "fetch -> panic").unwrap(),
+            },
+            ["peek"] => match guarded(|| q.next_time()) {
+                Ok(Some(t)) => write!(res, "peek -> {}", t.as_nanos()).unwrap(),
+                Ok(None) => write!(res, "peek -> none").unwrap(),
+                Err(_) => write!(res, "peek -> panic").unwrap(),
             },
             _ => continue,
         }
